@@ -4,8 +4,8 @@
    equal/greater, k class zero/mid/ones, 3^4 contents of the 4 key slots after the slice) x the amd64
    kernel transcribed trip by trip.  The toggle FixTail comes from spec/z/search_toggles.json
    (false = code as it is).  With the toggle false the strong property set (C20 as stated) is EXPECTED
-   to fail in the model (the lead for F1); the weak set (what the kernel does guarantee) and the
-   repaired model (FixTail = TRUE, strong set) must pass.  With the toggle true the strong set must pass.
+   to fail in the model (the lead for F1); the weak set (what the kernel does guarantee) and - in the
+   thorough tier - the repaired model (FixTail = TRUE, strong set) must pass.  With the toggle true the strong set must pass.
 2. TLC dumps the case enumeration (initial states); every case is realised on the real code
    (order-preserving embeddings of ordinals into uint64, 4 flavours incl. 0, 2^63 and 2^64-1) together
    with a sweep over every even length up to 2*255 and seeded random arrays:
@@ -47,6 +47,7 @@ def run(ctx, pid):
     if os.environ.get("VERIF_REPLAY"):
         return replay(ctx, pid, os.environ["VERIF_REPLAY"], fix)
     F = ctx.pick(16, 32)
+    quick = ctx.quick()
     consts = {"F": F, "FixTail": zc.tla_bool(fix)}
 
     # ---- 1. design spec -------------------------------------------------------------------------
@@ -60,7 +61,8 @@ def run(ctx, pid):
     else:
         plan.append(("mc", "z/MC_SearchAsIs.cfg", consts, w, ctx.sub("mc-asis"), ()))
         plan.append(("lead", "z/MC_Search.cfg", consts, 2, ctx.sub("mc-lead"), ()))
-        plan.append(("repair", "z/MC_Search.cfg", {"F": F, "FixTail": "TRUE"}, w, ctx.sub("mc-repair"), ()))
+        if not quick:     # vetting of the modelled repair: thorough tier only
+            plan.append(("repair", "z/MC_Search.cfg", {"F": F, "FixTail": "TRUE"}, w, ctx.sub("mc-repair"), ()))
     with concurrent.futures.ThreadPoolExecutor(max_workers=4) as ex:
         for key, cfg, cs, nw, wd, extra in plan:
             jobs[key] = ex.submit(vlib.tlc, ctx, FILES, "Search", zc.cfg_with(cfg, cs), workers=nw,
@@ -78,7 +80,7 @@ def run(ctx, pid):
         else:
             raise Inconclusive("Search.tla with FixTail=FALSE no longer shows the over-read (%s)" %
                                (lead.violated or lead.error or "passed"))
-        if not res["repair"].ok:
+        if "repair" in res and not res["repair"].ok:
             raise Inconclusive("repaired design (FixTail=TRUE) does not satisfy C20: %s" %
                                (res["repair"].violated or res["repair"].error))
     if not res["cases"].ok:
